@@ -210,6 +210,8 @@ def quic_conn(draw, max_steps=12, zero_cid=True, early=True, retry=True, offered
             "split_shs": draw(st.sampled_from([0, 0, 2, 3])), "hs_coalesce": draw(st.booleans()),
             "cert_len": draw(st.sampled_from([100, 600, 900]))}
     spec["hs_pnl"] = draw(st.sampled_from([0, 0, 1, 2, 3, 4]))
+    if draw(st.integers(0, 2)) == 0:
+        spec["hs_gaps"] = draw(st.lists(st.sampled_from([0, 0, 1, 5, 300, 70000, 1 << 20]), min_size=1, max_size=6))
     spec["token_len"] = draw(st.sampled_from([0, 0, 1, 24, 63, 64, 65, 80, 300]))      # 64 is where the token-length varint grows to 2 bytes
     if draw(st.booleans()):
         spec["split_chunk"] = draw(st.sampled_from([61, 97, 128]))       # fixed cut offsets, shared by all connections of a capture
